@@ -520,11 +520,15 @@ class ConstructedAsn1Type(Asn1Type):
         sizeSpec = kwargs.pop('sizeSpec', self.sizeSpec)
         if sizeSpec:
             subtypeSpec = kwargs.pop('subtypeSpec', self.subtypeSpec)
-            if subtypeSpec:
+            if not subtypeSpec:
                 subtypeSpec = sizeSpec
 
-            else:
+            elif isinstance(subtypeSpec, constraint.ConstraintsIntersection):
                 subtypeSpec += sizeSpec
+
+            else:
+                subtypeSpec = constraint.ConstraintsIntersection(
+                    subtypeSpec, sizeSpec)
 
             kwargs['subtypeSpec'] = subtypeSpec
 
